@@ -3,8 +3,14 @@
    encode_natural must be explained by the abstract bit string + position. *)
 EXTENDS BitCodes, Json, IOUtils, TLC
 Rec == ndJsonDeserialize(IOEnv.TRACE)
-VARIABLES l, wbits, B, pos
-vars == <<l, wbits, B, pos>>
+VARIABLES l, wbits, B, pos, lim
+vars == <<l, wbits, B, pos, lim>>
+\* Named deviation (known finding c13:window-end-unaligned): the crate's bit window runs on to the end of the byte
+\* that contains `end`.  With OVERRUN = "allow" the trace specification follows the crate there, so that the rest
+\* of every such session is still validated, and counts the reads that went past the required end in TLC register
+\* 3; with any other value the window ends at `end` and such a read is a rejection.
+OverrunOk == IOEnv.OVERRUN = "allow"
+ASSUME TLCSet(3, 0)
 \* results are compared through ToString so that values of different shapes compare unequal instead of
 \* raising a TLC error; error classes of the natural decoder are not distinguished (accept/reject only)
 ErrStrs == {ToString("eof"), ToString("overflow"), ToString("badindex")}
@@ -15,22 +21,25 @@ Bits(e) == CASE e.op = "bit"   -> <<e.b>>
              [] e.op = "bytes" -> BitsOfBytes(e.bytes)
              [] e.op = "nat"   -> EncB(e.nb)
 Step(e) ==
-  CASE e.ev = "wnew"   -> wbits' = <<>> /\ UNCHANGED <<B, pos>>
+  CASE e.ev = "wnew"   -> wbits' = <<>> /\ UNCHANGED <<B, pos, lim>>
     [] e.ev = "w"      -> /\ wbits' = wbits \o Bits(e)
                           /\ (e.written = Len(wbits')) = TRUE
                           /\ (e.op = "nat" => e.ret = Len(Bits(e))) = TRUE
-                          /\ UNCHANGED <<B, pos>>
+                          /\ UNCHANGED <<B, pos, lim>>
     [] e.ev = "flush"  -> /\ (e.bytes = PackBytes(wbits) /\ e.written = Len(wbits)) = TRUE
-                          /\ UNCHANGED <<wbits, B, pos>>
-    [] e.ev = "from"   -> B' = BitsOfBytes(e.bytes) /\ pos' = 0 /\ UNCHANGED wbits
-    [] e.ev = "window" -> B' = SubSeq(BitsOfBytes(e.bytes), e.s + 1, e.e) /\ pos' = 0 /\ UNCHANGED wbits
+                          /\ UNCHANGED <<wbits, B, pos, lim>>
+    [] e.ev = "from"   -> B' = BitsOfBytes(e.bytes) /\ pos' = 0 /\ lim' = 8 * Len(e.bytes) /\ UNCHANGED wbits
+    [] e.ev = "window" -> /\ B' = SubSeq(BitsOfBytes(e.bytes), e.s + 1, IF OverrunOk THEN 8 * ((e.e + 7) \div 8) ELSE e.e)
+                          /\ pos' = 0 /\ lim' = e.e - e.s /\ UNCHANGED wbits
     [] e.ev = "r"      -> LET a == AbsRead(B, pos, e.op, e.maxb, e.bound) IN
                           /\ (Norm(e.res) = Norm(a[2]) /\ e.total = a[1]) = TRUE
-                          /\ pos' = a[1] /\ UNCHANGED <<wbits, B>>
-    [] e.ev = "close"  -> (Norm(e.res) = Norm(AbsClose(B, pos))) = TRUE /\ UNCHANGED <<wbits, B, pos>>
-Init == l = 1 /\ wbits = <<>> /\ B = <<>> /\ pos = 0
+                          /\ (a[1] > lim => TLCSet(3, TLCGet(3) + 1)) = TRUE
+                          /\ pos' = a[1] /\ UNCHANGED <<wbits, B, lim>>
+    [] e.ev = "close"  -> (Norm(e.res) = Norm(AbsClose(B, pos))) = TRUE /\ UNCHANGED <<wbits, B, pos, lim>>
+Init == l = 1 /\ wbits = <<>> /\ B = <<>> /\ pos = 0 /\ lim = 0
 Next == l <= Len(Rec) /\ Step(Rec[l]) /\ l' = l + 1
 Spec == Init /\ [][Next]_vars
-Accepted == IF TLCGet("stats").diameter - 1 = Len(Rec) THEN TRUE
-            ELSE PrintT(<<"REJECTED", TLCGet("stats").diameter>>) /\ FALSE
+Accepted == /\ PrintT(<<"DEVIATION", TLCGet(3)>>)
+            /\ IF TLCGet("stats").diameter - 1 = Len(Rec) THEN TRUE
+               ELSE PrintT(<<"REJECTED", TLCGet("stats").diameter>>) /\ FALSE
 =============================================================================
